@@ -296,7 +296,7 @@ class ExecBase:
                     body = z3.And(body, z3.Implies(z3.And(i >= 0, i < v.sort.len(v.t)),
                                                    self.isinstance_term(VRef(e, v.sort.elem.cls), v.sort.elem.cls)))
                 st.pc.append(z3.ForAll([i], body))
-            elif isinstance(v.sort.elem, (TList, TRec, TDict)):
+            elif isinstance(v.sort.elem, (TList, TRec, TDict, TTup)):
                 i = z3.FreshConst(z3.IntSort(), "wi")
                 sub = State()
                 sub.top = st.top
